@@ -241,3 +241,61 @@ Proof.
   apply bind_not_OOB; [apply read_prefix_not_OOB; [lia | rewrite zlen_alloc by lia; lia]|].
   intros _ _. apply read_prefix_not_OOB; [lia | rewrite zlen_alloc by lia; lia].
 Qed.
+
+(* ---- mutations keep_rows ---- *)
+Lemma validate_scalar_rows_valid id_map : forall rows,
+  validate_scalar_rows true (zlen id_map) id_map rows = Ok tt ->
+  Forall (fun kr => fst kr = true -> parents_valid (zlen id_map) (snd kr))
+         (map (fun kr : bool * Z => (fst kr, [snd kr])) rows).
+Proof.
+  induction rows as [|[k pj] r IH]; intro H; [constructor|].
+  change (validate_scalar_rows true (zlen id_map) id_map ((k, pj) :: r))
+    with (do _ <- (if k then validate_parent_scalar true (zlen id_map) id_map pj else Ok tt);
+          validate_scalar_rows true (zlen id_map) id_map r) in H.
+  destruct k.
+  - destruct (validate_parent_scalar true (zlen id_map) id_map pj) as [[]| | |] eqn:V; simpl in H; try discriminate.
+    change (validate_parent_scalar true (zlen id_map) id_map pj)
+      with (validate_parents false (zlen id_map) id_map [pj]) in V.
+    constructor; [intros _; simpl; apply validate_parents_valid with id_map; exact V | apply IH; exact H].
+  - simpl in H. constructor; [simpl; discriminate | apply IH; exact H].
+Qed.
+
+Lemma validate_scalar_rows_not_OOB id_map : forall rows, validate_scalar_rows true (zlen id_map) id_map rows <> OOB.
+Proof.
+  induction rows as [|[k pj] r IH]; [discriminate|].
+  change (validate_scalar_rows true (zlen id_map) id_map ((k, pj) :: r))
+    with (do _ <- (if k then validate_parent_scalar true (zlen id_map) id_map pj else Ok tt);
+          validate_scalar_rows true (zlen id_map) id_map r).
+  apply bind_not_OOB; [|intros _ _; exact IH].
+  destruct k; [|discriminate].
+  change (validate_parent_scalar true (zlen id_map) id_map pj)
+    with (validate_parents false (zlen id_map) id_map [pj]).
+  apply validate_parents_not_OOB. reflexivity.
+Qed.
+
+Theorem guard_implies_in_bounds_mutation_keep_rows id_map rows :
+  mutation_keep_rows true id_map rows <> OOB.
+Proof.
+  unfold mutation_keep_rows. apply bind_not_OOB; [apply validate_scalar_rows_not_OOB|].
+  intros [] H. apply remap_rows_valid. apply validate_scalar_rows_valid. exact H.
+Qed.
+
+(* seeded change C09-11: a negative parent other than TSK_NULL is not refused *)
+Theorem mutation_keep_rows_negative_parent_mutant_refuted :
+  exists id_map rows, mutation_keep_rows false id_map rows = OOB.
+Proof. exists [0; 1], [(true, -2); (true, -1)]. vm_compute. reflexivity. Qed.
+
+(* ---- deduplicate_sites ---- *)
+Theorem guard_implies_in_bounds_deduplicate_sites dups num_sites msite :
+  0 <= num_sites -> deduplicate_sites_entry true dups num_sites msite <> OOB.
+Proof.
+  intro H. unfold deduplicate_sites_entry. simpl.
+  destruct (ids_in_range num_sites msite) eqn:E; simpl; [|discriminate].
+  destruct dups; [|discriminate].
+  apply read_all_in_range with num_sites; [apply zlen_alloc; exact H | apply ids_in_range_forall; exact E].
+Qed.
+
+(* seeded change C09-12: only the site table is checked *)
+Theorem deduplicate_sites_site_only_check_mutant_refuted :
+  exists num_sites msite, 0 <= num_sites /\ deduplicate_sites_entry false true num_sites msite = OOB.
+Proof. exists 2, [0; 2]. split; [lia | vm_compute; reflexivity]. Qed.
